@@ -406,8 +406,9 @@ class Evidence(object):
             "wall_s": round(time.time() - self.t0, 2),
             "violations": len(self.violations),
         }
-        os.makedirs(os.path.join(VERIF, "evidence"), exist_ok=True)
-        p = os.path.join(VERIF, "evidence", self.prop + ".json")
+        edir = os.environ.get("VERIF_EVIDENCE_DIR", os.path.join(VERIF, "evidence"))
+        os.makedirs(edir, exist_ok=True)
+        p = os.path.join(edir, self.prop + ".json")
         tmp = p + ".tmp"
         with open(tmp, "w") as f:
             json.dump(ev, f, indent=1, sort_keys=True)
